@@ -96,6 +96,11 @@ theorem C02_batch_keeps_order {fl : Flavour} (hrv : fl.fam ≠ .rv) (hos : fl.fa
       left; refine ⟨a, ?_⟩
       simp only [sentOf] at c; rw [← c]
       exact ⟨rest, by simpa [Op.vals] using hp.1.symm⟩
+    | stg t k h' sent rest =>
+      rw [hr] at hp c
+      left; refine ⟨a, ?_⟩
+      simp only [sentOf] at c; rw [← c]
+      exact ⟨rest, by simpa [Op.vals] using hp.1.symm⟩
     | _ => rw [hr] at c; simp only [sentOf] at c; right; exact ⟨a, c.symm⟩
   · obtain ⟨⟨γ, a, _, _, d⟩, _⟩ := Fv.Props.C01.C01_recv_effect hrv hos s f h n
     exact ⟨γ, a, d⟩
